@@ -691,8 +691,13 @@ func RunProxyWrites(seed int64) (runs []PxWriteRun, viols []drv.Violation, err e
 			}
 			var ups []up
 			ctx := context.Background()
-			for i, n := range []int{1, 4096, 70001, 1<<20 + 1, 2<<20 + 3} {
-				data := drv.GenData(rng, n, i%3)
+			// sizes at the chunk sizes of the store (1 MiB) and of the uploaders (2 MiB), incompressible and not
+			for i, n := range []int{1, 4096, 70001, 1<<20 + 1, 2<<20 + 3, 1 << 20, 2 << 20, 4 << 20, 2<<20 - 1} {
+				class := i % 3
+				if n >= 1<<20 && n%(1<<20) == 0 {
+					class = 0
+				}
+				data := drv.GenData(rng, n, class)
 				u := up{cache.CAS, fmtw.Sha(data), data}
 				if e := envA.f.Cache.Put(ctx, cache.CAS, u.hash, int64(n), bytes.NewReader(data)); e != nil {
 					return runs, viols, e
